@@ -74,6 +74,16 @@ func c04SeqType(t types.Type) (seq bool, arrayLen int64) {
 	return false, -1
 }
 
+func c04Unparen(e ast.Expr) ast.Expr {
+	for {
+		p, ok := e.(*ast.ParenExpr)
+		if !ok {
+			return e
+		}
+		e = p.X
+	}
+}
+
 func c04IsInt(p *Pkg, e ast.Expr) bool {
 	tv, ok := p.Info.Types[e]
 	if !ok || tv.Type == nil {
@@ -99,7 +109,7 @@ func c04Collect(p *Pkg, file string, fd *ast.FuncDecl, out *[]c04Site) {
 		switch t := n.(type) {
 		case *ast.AssignStmt:
 			if len(t.Lhs) == 2 && len(t.Rhs) == 1 {
-				commaOK[ast.Unparen(t.Rhs[0])] = true
+				commaOK[c04Unparen(t.Rhs[0])] = true
 			}
 			if t.Tok == token.QUO_ASSIGN || t.Tok == token.REM_ASSIGN {
 				if c04IsInt(p, t.Lhs[0]) && !c04NonZeroConst(p, t.Rhs[0]) {
@@ -108,7 +118,7 @@ func c04Collect(p *Pkg, file string, fd *ast.FuncDecl, out *[]c04Site) {
 			}
 		case *ast.ValueSpec:
 			if len(t.Names) == 2 && len(t.Values) == 1 {
-				commaOK[ast.Unparen(t.Values[0])] = true
+				commaOK[c04Unparen(t.Values[0])] = true
 			}
 		case *ast.CallExpr:
 			if id, ok := t.Fun.(*ast.Ident); ok && id.Name == "panic" && len(t.Args) == 1 {
@@ -171,6 +181,21 @@ func c04Skeleton(p *Pkg, list []ast.Stmt, depth int, out *[]string) {
 			}
 		case *ast.BlockStmt:
 			c04Skeleton(p, t.List, depth, out)
+		case *ast.ForStmt:
+			h := "for "
+			if t.Init != nil {
+				h += p.Src(t.Init)
+			}
+			h += "; "
+			if t.Cond != nil {
+				h += p.Src(t.Cond)
+			}
+			h += "; "
+			if t.Post != nil {
+				h += p.Src(t.Post)
+			}
+			*out = append(*out, ind+h)
+			c04Skeleton(p, t.Body.List, depth+1, out)
 		default:
 			*out = append(*out, ind+p.Src(s))
 		}
@@ -273,6 +298,72 @@ func genPanicSites(c *Ctx) (string, error) {
 	}
 	sort.Strings(recovers)
 
+	// the progress guard of advance() and the error cap of error()
+	var advBody, errBody, expBody, semiBody []string
+	if fd := pp.FindFunc("Parser", "expect"); fd != nil {
+		c04Skeleton(pp, fd.Body.List, 0, &expBody)
+	} else {
+		return "", fmt.Errorf("(*Parser).expect not found")
+	}
+	if fd := pp.FindFunc("Parser", "expectSemi"); fd != nil {
+		semiBody = append(semiBody, pp.Src(fd.Body))
+	} else {
+		return "", fmt.Errorf("(*Parser).expectSemi not found")
+	}
+	if fd := pp.FindFunc("Parser", "advance"); fd != nil {
+		c04Skeleton(pp, fd.Body.List, 0, &advBody)
+	} else {
+		return "", fmt.Errorf("(*Parser).advance not found")
+	}
+	if fd := pp.FindFunc("Parser", "error"); fd != nil {
+		c04Skeleton(pp, fd.Body.List, 0, &errBody)
+	} else {
+		return "", fmt.Errorf("(*Parser).error not found")
+	}
+
+	// the synchronisation set of advance()
+	var stmtStart []string
+	lit := pp.FindVar("stmtStart")
+	keys, vals, ok := keyedLit(lit)
+	if lit == nil || !ok {
+		return "", fmt.Errorf("parser.stmtStart is not a keyed literal")
+	}
+	for i, k := range keys {
+		sel, ok := k.(*ast.SelectorExpr)
+		if !ok || pp.Src(vals[i]) != "true" {
+			return "", fmt.Errorf("parser.stmtStart: unexpected entry %s", pp.Src(k))
+		}
+		stmtStart = append(stmtStart, sel.Sel.Name)
+	}
+	// the advance() call sites: which set each of them synchronises on
+	var advSets, advArgs []string
+	for _, d := range pp.Files["parser.go"].Decls {
+		fd, ok := d.(*ast.FuncDecl)
+		if !ok || fd.Body == nil {
+			continue
+		}
+		ast.Inspect(fd, func(n ast.Node) bool {
+			if call, ok := n.(*ast.CallExpr); ok {
+				if sel, ok := call.Fun.(*ast.SelectorExpr); ok && sel.Sel.Name == "advance" && len(call.Args) == 1 {
+					advSets = append(advSets, c04FuncName(fd)+": "+pp.Src(call.Args[0]))
+					if a := pp.Src(call.Args[0]); len(advArgs) == 0 || advArgs[len(advArgs)-1] != a {
+						advArgs = append(advArgs, a)
+					}
+				}
+			}
+			return true
+		})
+	}
+	sort.Strings(advSets)
+	sort.Strings(advArgs)
+	for i := 1; i < len(advArgs); {
+		if advArgs[i] == advArgs[i-1] {
+			advArgs = append(advArgs[:i], advArgs[i+1:]...)
+		} else {
+			i++
+		}
+	}
+
 	var b strings.Builder
 	b.WriteString("namespace Tengo.Gen.PanicSites\n")
 	b.WriteString("/-- files inventoried -/\n")
@@ -287,6 +378,13 @@ func genPanicSites(c *Ctx) (string, error) {
 	fmt.Fprintf(&b, "/-- skeleton of the function literal deferred by (*Parser).ParseFile -/\ndef parseFileDeferred : List String := %s\n", leanListLines(mapStr(deferred, leanStr)))
 	fmt.Fprintf(&b, "/-- functions that call recover() -/\ndef recoverCalls : List String := %s\n", leanList(mapStr(recovers, leanStr)))
 	fmt.Fprintf(&b, "/-- functions that raise `panic(bailout{})` -/\ndef bailoutRaised : List String := %s\n", leanList(mapStr(bail, leanStr)))
+	fmt.Fprintf(&b, "/-- keys of the `stmtStart` map (token constant names, source order) -/\ndef stmtStart : List String := %s\n", leanList(mapStr(stmtStart, leanStr)))
+	fmt.Fprintf(&b, "/-- call sites of `p.advance(set)` -/\ndef advanceCalls : List String := %s\n", leanList(mapStr(advSets, leanStr)))
+	fmt.Fprintf(&b, "/-- skeleton of (*Parser).advance: the syncPos/syncCount progress guard -/\ndef advanceBody : List String := %s\n", leanListLines(mapStr(advBody, leanStr)))
+	fmt.Fprintf(&b, "/-- skeleton of (*Parser).error: same-line suppression and the more-than-10 bailout -/\ndef errorBody : List String := %s\n", leanListLines(mapStr(errBody, leanStr)))
+	fmt.Fprintf(&b, "/-- skeleton of (*Parser).expect: consumes a token whether or not it matches -/\ndef expectBody : List String := %s\n", leanListLines(mapStr(expBody, leanStr)))
+	fmt.Fprintf(&b, "/-- body of (*Parser).expectSemi on one line -/\ndef expectSemiBody : List String := %s\n", leanListLines(mapStr(semiBody, leanStr)))
+	fmt.Fprintf(&b, "/-- distinct arguments of the `p.advance(…)` calls -/\ndef advanceSets : List String := %s\n", leanList(mapStr(advArgs, leanStr)))
 	b.WriteString("end Tengo.Gen.PanicSites\n")
 	return b.String(), nil
 }
